@@ -153,13 +153,25 @@ def zero_rows(ctx, F):
     site = 'AffFuncBase::remove_zero_rows#keep-test'
     clos = [cb for cb in b.closure_bodies() if cb.parent == b.path]
     if len(clos) != 1:
-        ctx.undecided('C15.R3', site, 'expected one filter closure', b.span)
-        return
-    try:
-        tt = truth_table(F, clos[0])
-    except Unknown as e:
-        ctx.undecided('C15.R3', site, 'the keep test leaves the (all-zero?, sign of bias) domain: %s' % e, clos[0].span)
-        return
+        # no filter closure: the rows may be kept by pushes in a loop; same truth table, computed over one loop iteration
+        from ..absint import loop_truth_table
+        R = Resolver(b)
+        fr = [R.call_args(bb) for bb, t in b.calls_to('AffFuncBase::from_row_iter')]
+        try:
+            if len(fr) != 1:
+                raise Unknown('expected one from_row_iter call')
+            lt = loop_truth_table(F, b, R, fr[0][2])
+        except Unknown as e:
+            ctx.undecided('C15.R3', site, 'expected one filter closure or one push loop (%s)' % e, b.span)
+            return
+        tt = {k: (True if v == 'keep' else (False if v == 'drop' else v)) for k, v in lt.items()}
+        clos = [b]
+    else:
+        try:
+            tt = truth_table(F, clos[0])
+        except Unknown as e:
+            ctx.undecided('C15.R3', site, 'the keep test leaves the (all-zero?, sign of bias) domain: %s' % e, clos[0].span)
+            return
     bad = [k for k, v in tt.items() if v is not True and (k[0] is False or k[1] < 0)]
     if bad:
         ctx.bad('C15.R3', site, 'rows are dropped that are not tautologies: %s (key = (all coefficients zero, sign of bias))' % bad, clos[0].span)
@@ -230,8 +242,35 @@ def tautologies(ctx, F):
         return
     site = 'AffFuncBase::remove_tautologies#closure'
     clos = [cb for cb in b.closure_bodies() if cb.parent == b.path]
+    loop_done = False
     if len(clos) != 1:
-        ctx.undecided('C15.R3', site, 'expected one filter_map closure', b.span)
+        # the same decision written as a loop: push = keep, continue = drop, `return empty(..)` = the whole polytope is empty
+        from ..absint import loop_truth_table
+        R0 = Resolver(b)
+        fr = [R0.call_args(bb) for bb, t in b.calls_to('AffFuncBase::from_row_iter')]
+        try:
+            if len(fr) != 1:
+                raise Unknown('expected one from_row_iter call')
+            lt = loop_truth_table(F, b, R0, fr[0][2])
+            problems = []
+            for (allzero, sign), v in lt.items():
+                is_empty = isinstance(v, tuple) and v[0] == 'return' and v[1] == ('canonical', 'empty')
+                if not allzero and v != 'keep':
+                    problems.append('a row with a non-zero coefficient is not kept unchanged (%s)' % (v,))
+                if allzero and sign < 0 and not (is_empty or v == 'keep'):
+                    problems.append('an all-zero row with negative bias (infeasible) is dropped instead of emptying the polytope')
+                if allzero and sign >= 0 and v not in ('drop', 'keep'):
+                    problems.append('an all-zero row with bias %s 0 (a tautology) makes the polytope empty' % ('=' if sign == 0 else '>'))
+            if problems:
+                for p_ in sorted(set(problems)):
+                    ctx.bad('C15.R3', site, p_, b.span)
+            else:
+                ctx.ok('C15.R3', site, 'all-zero row: bias >= 0 -> dropped, bias < 0 -> whole polytope empty; other rows kept unchanged (truth table over 6 abstract cases of one loop iteration)', b.span)
+                ctx.ok('C15.R3', 'AffFuncBase::remove_tautologies#empty', 'canonical empty only from the iteration that met an infeasible row', b.span)
+            loop_done = True
+        except Unknown as e:
+            ctx.undecided('C15.R3', site, 'expected one filter_map closure or one push loop (%s)' % e, b.span)
+            loop_done = True
     else:
         try:
             tt = truth_table(F, clos[0])
@@ -253,6 +292,8 @@ def tautologies(ctx, F):
                 ctx.ok('C15.R3', site, 'all-zero row: bias >= 0 -> dropped, bias < 0 -> whole polytope empty; other rows kept unchanged (truth table over 6 abstract cases)', clos[0].span)
         except Unknown as e:
             ctx.undecided('C15.R3', site, 'the tautology test leaves the (all-zero?, sign of bias) domain: %s' % e, clos[0].span)
+    if loop_done:
+        return
     R = Resolver(b)
     e = [(bb, literals(b, R, bb)) for bb, t in b.calls_to('AffFuncBase::empty')]
     oke = len(e) == 1 and any(l[0] == 'is' and l[2] == frozenset(['None']) for l in e[0][1])
